@@ -47,8 +47,21 @@ def chr_layout(rng, n):
     nums = rng.sample([1, 2, 3, 9, 10, 11, 20, 100], n)
     names = sorted("c%d" % k for k in nums)
     lengths = [5000 - 100 * i for i in range(n)]
-    merge_order = sorted(range(n), key=lambda i: C02.natural_key(names[i]))
+    # provisional (names are c<k> with distinct k); `model_merge_orders` replaces it by the C06 model's visiting order
+    merge_order = sorted(range(n), key=lambda i: int(names[i][1:]))
     return names, lengths, merge_order
+
+
+def model_merge_orders(ctx, cases):
+    """visiting order of the per-chromosome parts = C06's natural-order model (Model/Schedule.lean mergeOrder), not a
+    harness-side sort: the real merge_counts / merge_files then has to agree with it through `compare`"""
+    outs = ctx.driver.run([vlib.req("C06.merge_order", names=c["names"]) for c in cases])
+    for c, mo in zip(cases, outs):
+        if isinstance(mo, list) and sorted(mo) == sorted(c["names"]):
+            order = [c["names"].index(nm) for nm in mo]
+            if order != c["merge_order"]:
+                ctx.count("downstream:merge_order_model_vs_provisional_differs")
+            c["merge_order"] = order
 
 
 def gen_matches(rng, atype):
@@ -354,6 +367,7 @@ def correspondence(ctx):
     rng = ctx.rng
     quick = ctx.tier == "quick"
     cases = [gen_case(rng, i) for i in range(220 if quick else 2500)]
+    model_merge_orders(ctx, cases)
     outs = ctx.driver.run([model_request(c) for c in cases])
     for c, mo in zip(cases, outs):
         ctx.evaluations += 1
@@ -496,6 +510,7 @@ def oracle_downstream(ctx, disagreements):
         if d.get("op") == "downstream" and isinstance(d.get("input"), dict) and "chroms" in d["input"]:
             cases.append(d["input"])
     cases = cases[:20] + [gen_case(rng, 10 ** 6 + i, conflict=0.08) for i in range(120 if quick else 1500)]
+    model_merge_orders(ctx, cases)
     for c in cases:
         if not in_domain(c):
             ctx.count("oracle:downstream:outside_domain")
